@@ -24,33 +24,35 @@ const T = 59 * time.Second
 
 type Spec struct {
 	Cipher int    `json:"cipher"`
-	Keys   int    `json:"keys"`   // key-list size (the probe's key, if any, is the last one)
-	Kind   string `json:"kind"`   // random | trunc | flip | valid-badaddr | replay
-	N      int    `json:"n"`      // length / truncation length / bit index
-	Client string `json:"client"` // K keep open, F half-close after sending, M more data at T/2
-	Cache  int    `json:"cache"`  // replay cache capacity (0 = off)
+	Keys   int    `json:"keys"`             // key-list size (the probe's key, if any, is the last one)
+	Kind   string `json:"kind"`             // random | trunc | flip | valid-badaddr | replay
+	N      int    `json:"n"`                // length / truncation length / bit index
+	Client string `json:"client"`           // K keep open, F half-close after sending, M more data at T/2
+	Cache  int    `json:"cache"`            // replay cache capacity (0 = off)
+	Target string `json:"target,omitempty"` // "rst": the target takes the first bytes and resets its connection 2 s later
+	After  int    `json:"after,omitempty"`  // kind split-addr: junk bytes sent right after the first chunk (0: silence)
 }
 
 func (s Spec) String() string { b, _ := json.Marshal(s); return string(b) }
 
 type obsT struct {
-	sent         int
-	clientGot    int
-	clientEOF    time.Duration
-	clientRST    time.Duration
-	srvClosedAt  time.Duration
-	srvFinAt     time.Duration
-	srvRST       bool
-	order        []string
-	status       string
-	probes       []world.ProbeRec
-	targetConns  int
-	connects     int
-	clientClose  time.Duration
-	tgtFinEarly  bool
-	open         []string
-	closedCount  int
-	srvRead      int64
+	sent        int
+	clientGot   int
+	clientEOF   time.Duration
+	clientRST   time.Duration
+	srvClosedAt time.Duration
+	srvFinAt    time.Duration
+	srvRST      bool
+	order       []string
+	status      string
+	probes      []world.ProbeRec
+	targetConns int
+	connects    int
+	clientClose time.Duration
+	tgtFinEarly bool
+	open        []string
+	closedCount int
+	srvRead     int64
 }
 
 // validStream: address + two payload chunks
@@ -75,6 +77,13 @@ func build(s Spec) *engine.Scenario {
 		w := world.NewTCP(keys, s.Cache, T)
 		w.Start()
 		tgt := world.StartTarget("93.184.216.34:80", func(t *world.Target, i int, c *vnet.TCPConn) {
+			if s.Target == "rst" {
+				io.ReadFull(c, make([]byte, 1))
+				vrt.Sleep(2 * time.Second)
+				c.SetLinger(0)
+				c.Close()
+				return
+			}
 			t.ReadAll(i, c)
 			c.Close()
 		})
@@ -121,6 +130,17 @@ func build(s Spec) *engine.Scenario {
 					}
 				}
 			}
+		case "split-addr":
+			// a valid first chunk that carries only the first N bytes of the address header; then
+			// junk or nothing: the address can never be completed
+			a := world.Addr("93.184.216.34:80")
+			probe = world.EncodeStream(key, 7, a[:s.N])
+			if s.After > 0 {
+				junk := make([]byte, s.After)
+				io.ReadFull(vrt.DetRand(uint64(s.After)+5), junk)
+				probe = append(probe, junk...)
+			}
+			authenticates, postAuthInvalid, region = true, true, "addr-split"
 		case "replay":
 			probe = wire
 			authenticates = false // second presentation
@@ -233,6 +253,19 @@ func build(s Spec) *engine.Scenario {
 			}
 			if s.Client == "M" {
 				limit = T/2 + T
+			}
+			if region == "addr-split" {
+				// the address never arrives: the handshake timeout (or the client's close) ends the wait
+				if limit > T {
+					limit = T
+				}
+				if o.connects != 0 {
+					add("postauth-dialed", "an address header that was never completed caused %d target connection(s)", o.connects)
+				}
+			}
+			if s.Target == "rst" {
+				// the target's reset may be passed on as a half-close; the connection itself stays
+				o.srvFinAt = -1
 			}
 			if o.srvClosedAt >= 0 && o.srvClosedAt < limit {
 				add("postauth-active-close{"+o.status+","+region+"}", "server closed an authenticated-then-invalid connection at %v while the client kept it open (until %v); status %s", o.srvClosedAt, limit, o.status)
@@ -556,6 +589,19 @@ func grid(tier string) []Spec {
 				}
 				for _, cache := range []int{1, 100} {
 					out = append(out, Spec{Cipher: cipher, Keys: nk, Kind: "replay", Client: cl, Cache: cache})
+				}
+				if nk == 1 {
+					// the address header split over two chunks and never completed
+					for n := 1; n < 7; n++ {
+						for _, after := range []int{0, 1, 17, 40} {
+							out = append(out, Spec{Cipher: cipher, Keys: nk, Kind: "split-addr", N: n, After: after, Client: cl})
+						}
+					}
+					// a later chunk fails while the target resets its side
+					pre := len(world.EncodeStream(k0, 7, world.Addr("93.184.216.34:80"), world.Pattern(1, 40)))
+					for _, off := range []int{pre + 1, len(wire) - 20} {
+						out = append(out, Spec{Cipher: cipher, Keys: nk, Kind: "flip", N: off * 8, Client: cl, Target: "rst"})
+					}
 				}
 			}
 		}
